@@ -109,6 +109,7 @@ def scan_harness_text(text, modname, crate, src_rel, origin):
                     unwind=unwind, stubs=stubs, assumes=assumes,
                     cbmc=pending.get("cbmc", "").split() if pending.get("cbmc") else [],
                     nocover=pending.get("nocover", "") == "1",
+                    cost=int(pending.get("cost", pending.get("timeout", "300"))),
                 ))
                 pending = None
                 attrs = []
@@ -235,7 +236,7 @@ def main():
     ap.add_argument("--replay")
     ap.add_argument("--only")
     ap.add_argument("--keep", action="store_true")
-    ap.add_argument("--lanes", type=int, default=int(os.environ.get("VERIF_LANES", "6")))
+    ap.add_argument("--lanes", type=int, default=int(os.environ.get("VERIF_LANES", "12")))
     ap.add_argument("--no-evidence", action="store_true")
     ap.add_argument("--list", action="store_true")
     args = ap.parse_args()
@@ -309,30 +310,78 @@ def main():
     os.makedirs(logdir, exist_ok=True)
     known = load_known()
 
-    lanes = max(1, min(args.lanes, len(jobs)))
-    lane_dirs = [os.path.join(root, "target-%d" % i) for i in range(lanes)]
-    import queue
-    laneq = queue.Queue()
-    for d in lane_dirs:
-        laneq.put(d)
+    # lanes: one `cargo kani` invocation per lane running several harnesses sequentially
+    # (one compile per lane); harnesses are spread over lanes by descending cost estimate.
+    # Memory: a lane's cap is the largest `mem` of its jobs; the sum of caps stays under VERIF_MEM_MB.
+    mem_total = int(os.environ.get("VERIF_MEM_MB", "52000"))
+    HEAVY = 5000
+    heavy = [j for j in jobs if j.mem > HEAVY]
+    light = [j for j in jobs if j.mem <= HEAVY]
+    heavy_cap = max([j.mem for j in heavy] or [0])
+    light_cap = max([j.mem for j in light] or [0])
+    n_heavy = min(len(heavy), max(1, (mem_total // 3) // max(heavy_cap, 1))) if heavy else 0
+    n_light = 0
+    if light:
+        n_light = max(1, min(args.lanes, len(light), (mem_total - n_heavy * heavy_cap) // max(light_cap, 1)))
 
-    def work(job):
-        td = laneq.get()
-        try:
-            r = kani.run_harness(root, job.crate, job.full, td, job.timeout, job.mem,
-                                 os.path.join(logdir, job.name + ".log"), extra_cbmc=job.cbmc,
-                                 required_covers=not job.nocover)
-            return job, r
-        finally:
-            laneq.put(td)
+    def spread(js, n):
+        js = sorted(js, key=lambda j: -j.cost)
+        ls = [[] for _ in range(n)]
+        cost = [0] * n
+        crate = [None] * n
+        for j in js:
+            cands = [i for i in range(n) if crate[i] in (None, j.crate)] or list(range(n))
+            i = min(cands, key=lambda k: cost[k])
+            ls[i].append(j)
+            cost[i] += j.cost
+            crate[i] = j.crate
+        out = []
+        for l in ls:
+            # a lane must be single-crate
+            by = {}
+            for j in l:
+                by.setdefault(j.crate, []).append(j)
+            out += list(by.values())
+        return out
 
-    # long jobs first
-    jobs.sort(key=lambda j: -j.timeout)
+    lane_specs = [(l, heavy_cap) for l in spread(heavy, n_heavy)] + [(l, light_cap) for l in spread(light, n_light)]
+    lane_specs = [(l, c) for l, c in lane_specs if l]
+    per_lane_mem = max(light_cap, heavy_cap, 4000)
+    lane_dirs = [os.path.join(root, "target-%d" % i) for i in range(len(lane_specs))]
+
+    def work(i):
+        lj, cap = lane_specs[i]
+        remaining = list(lj)
+        merged = {}
+        total_wall = 0.0
+        attempt = 0
+        while remaining and attempt < 4:
+            out, wall = kani.run_lane(root, remaining[0].crate, remaining, lane_dirs[i],
+                                      os.path.join(logdir, "lane-%d-%d.log" % (i, attempt)), cap)
+            total_wall += wall
+            attempt += 1
+            rerun = []
+            for j in remaining:
+                r = out[j.full]
+                if r.status == "inconclusive" and r.reason.startswith("not run: lane killed"):
+                    rerun.append(j)
+                else:
+                    merged[j.full] = r
+            remaining = rerun
+        for j in remaining:
+            merged[j.full] = out[j.full]
+        return i, merged, total_wall
+
     results = []
-    with concurrent.futures.ThreadPoolExecutor(max_workers=lanes) as ex:
-        for job, r in ex.map(work, jobs):
-            results.append((job, r))
-            print("[%s] %-60s %-12s %6.1fs  %s" % (prop, job.name, r.status, r.wall_s, r.reason), flush=True)
+    with concurrent.futures.ThreadPoolExecutor(max_workers=max(1, len(lane_specs))) as ex:
+        for i, out, wall in ex.map(work, range(len(lane_specs))):
+            for job in lane_specs[i][0]:
+                r = out[job.full]
+                results.append((job, r))
+                print("[%s] %-52s %-12s %6.1fs (symex %.0fs, solver %.0fs) %s" % (
+                    prop, job.name, r.status, r.wall_s, r.symex_s, r.solver_s, r.reason), flush=True)
+            print("[%s] lane %d: %d harnesses, wall %.0fs, peak %d MB (cap %d)" % (
+                prop, i, len(lane_specs[i][0]), wall, max([out[j.full].peak_rss_mb for j in lane_specs[i][0]] or [0]), lane_specs[i][1]), flush=True)
 
     exit_code = 0
     violations = []
@@ -360,8 +409,9 @@ def main():
             r.status = "ok-known"
             continue
         # replay: rerun with concrete playback, then run natively
-        pb = kani.run_harness(root, job.crate, job.full, lane_dirs[0], job.timeout * 2, job.mem,
-                              os.path.join(logdir, job.name + ".playback.log"), extra_cbmc=job.cbmc, playback=True)
+        pbout, _w = kani.run_lane(root, job.crate, [job], lane_dirs[0], os.path.join(logdir, job.name + ".playback.log"),
+                                  max(per_lane_mem, job.mem), playback=True)
+        pb = pbout[job.full]
         tests = [t for t in extract_playback_tests(getattr(pb, "raw", "")) if t["cls"] != "cover"]
         unknown_descs = set(c.desc for c in unknown)
         cand = [t for t in tests if t["desc"] in unknown_descs] or tests
